@@ -45,6 +45,12 @@ CLAIMED = {
             "rank lists, non-contiguous and lazily conjugated core views, requires_grad cores), all four dtypes.",
             "Trusted: torch.equal, storage pointers, the checker's dense contraction. CPU only.",
             "DESIGN.md 4/C19"),
+    "C20": ("property-based testing (Hypothesis): generated layer configurations and batched inputs vs. dense affine map, autograd and finite-difference gradients",
+            "Generated search over size_in/size_out/rank lists/dtype/initialiser/batch shape with the dense affine map "
+            "built from the layer's own cores as oracle for the forward value, parameter registration, and gradients "
+            "(dense autograd + central finite differences).",
+            "Trusted: torch autograd on the checker's dense expression; the Glorot/He variance is not checked (only registration and the map).",
+            "DESIGN.md 4/C20"),
 }
 
 NOT_YET = {}
